@@ -151,3 +151,10 @@ def replay_take(scn, variants, signature):
             if what:
                 viol.append(dict(what=what, sig=signature(scn, kind, sp), variant="kinds=%s spelling=%s form=%d" % (kind, sp, form)))
     return dict(violations=viol, calls=calls)
+
+
+
+def post(tier, seed, ctx):
+    """code -> spec: randomly driven calls (up to 4-d, axes up to 5 labels) recorded and validated by TLC against spec/TraceOps.tla"""
+    from .. import trace_ops
+    trace_ops.validate(PROP, tier, seed, ctx, ['take'])
